@@ -5,19 +5,53 @@ import (
 	"strings"
 )
 
-// runSMExhaustive: small-scope exhaustive correspondence for the seat manager (thorough tier):
-// EVERY operation sequence of length L over the whole alphabet — every seat argument from -2
-// (join) / -1 to max, join-any, sit-in, reserve, leave, next — on a table of `max` seats.
-// `part`/`parts` split the enumeration over processes by the index of the sequence.
-func runSMExhaustive(dir string, max, L, part, parts int) {
+// runSMExhaustive: small-scope exhaustive correspondence for the seat manager (thorough tier).
+// `part`/`parts` split the enumeration over processes by the index of the sequence / case.
+//
+// variant "fresh": EVERY operation sequence of length L over the whole alphabet — every seat argument from -2
+// (join) / -1 to max, join-any, sit-in, reserve, leave, next — on a fresh table of `max` seats.
+//
+// variant "preseated": the same from every PRE-SEATED POST-NEXT state: for every set of two or more seats of the
+// table, their players sit in and one hand is started; then every operation sequence of length L over the in-range
+// alphabet (join-any, join / sit-in / reserve / leave on every seat of the table, next).  A first successful Next()
+// needs five operations on a fresh table, so only this variant reaches second and third hands exhaustively.
+//
+// variant "waiting": the whole case space of the waiting-player stratum (sm.go: forEachWaitingCase) on `max` seats.
+func runSMExhaustive(dir string, max, L, part, parts int, variant string) {
 	o := NewOut(dir, "smx")
 	r := &smRunner{o: o}
+	switch variant {
+	case "waiting":
+		n := 0
+		forEachWaitingCase(max, func(S []bool, newc, rem []int, remFirst bool) {
+			if n%parts == part {
+				r.waitingCase(max, S, newc, rem, remFirst)
+				o.Count("smx.histories")
+			}
+			n++
+		})
+		o.Stats["smx.max"] = max
+		o.Sample(fmt.Sprintf("all %d waiting-player cases on %d seats (part %d/%d); e.g. %s", n, max, part, parts, strings.Join(o.hist, " ; ")))
+		o.Close(dir, "smx", uint64(part))
+		return
+	}
+	pre := variant == "preseated"
 	var alphabet [][]string
-	for s := -2; s <= max; s++ {
+	lo := -2
+	hi := max
+	if pre {
+		lo, hi = -1, max-1
+	}
+	for s := lo; s <= hi; s++ {
 		alphabet = append(alphabet, []string{"join", itoa(int64(s)), "PID", "-"})
 	}
+	if pre {
+		lo = 0
+	} else {
+		lo = -1
+	}
 	for _, k := range []string{"seat", "reserve", "leave"} {
-		for s := -1; s <= max; s++ {
+		for s := lo; s <= hi; s++ {
 			alphabet = append(alphabet, []string{k, itoa(int64(s))})
 		}
 	}
@@ -27,28 +61,59 @@ func runSMExhaustive(dir string, max, L, part, parts int) {
 	for i := 0; i < L; i++ {
 		total *= A
 	}
-	idx := make([]int, L)
-	for n := part; n < total; n += parts {
-		x := n
-		for i := 0; i < L; i++ {
-			idx[i] = x % A
-			x /= A
-		}
-		r.newSM(max)
-		pid := 100
-		for i := 0; i < L && !r.dead; i++ {
-			op := append([]string{}, alphabet[idx[i]]...)
-			if op[0] == "join" {
-				pid++
-				op[2] = itoa(int64(pid))
+	// starting states: the fresh table, or every set of >= 2 seated players after one hand
+	starts := []int{0}
+	if pre {
+		starts = starts[:0]
+		for mask := 0; mask < 1<<max; mask++ {
+			c := 0
+			for i := 0; i < max; i++ {
+				c += mask >> i & 1
 			}
-			r.exec(op)
+			if c >= 2 {
+				starts = append(starts, mask)
+			}
 		}
-		o.Count("smx.histories")
+	}
+	idx := make([]int, L)
+	for si, mask := range starts {
+		for n := (part + parts - si%parts) % parts; n < total; n += parts {
+			x := n
+			for i := 0; i < L; i++ {
+				idx[i] = x % A
+				x /= A
+			}
+			r.newSM(max)
+			pid := 100
+			if pre {
+				for i := 0; i < max; i++ {
+					if mask>>i&1 == 1 {
+						r.sit(i, &pid)
+					}
+				}
+				r.nexts(1)
+			}
+			for i := 0; i < L && !r.dead; i++ {
+				op := append([]string{}, alphabet[idx[i]]...)
+				if op[0] == "join" {
+					pid++
+					op[2] = itoa(int64(pid))
+				}
+				r.exec(op)
+			}
+			o.Count("smx.histories")
+			if r.hands >= 2 {
+				o.Count("smx.histories.2+hands")
+			}
+			if r.hands >= 3 {
+				o.Count("smx.histories.3+hands")
+			}
+		}
 	}
 	o.Stats["smx.alphabet"] = A
 	o.Stats["smx.length"] = L
 	o.Stats["smx.max"] = max
-	o.Sample(fmt.Sprintf("all %d^%d operation sequences on %d seats (part %d/%d); e.g. %s", A, L, max, part, parts, strings.Join(o.hist, " ; ")))
+	o.Stats["smx.starts"] = len(starts)
+	o.Sample(fmt.Sprintf("all %d^%d operation sequences on %d seats from %d starting states (%s; part %d/%d); e.g. %s", A, L, max, len(starts), variant, part, parts, strings.Join(o.hist, " ; ")))
 	o.Close(dir, "smx", uint64(part))
 }
